@@ -78,4 +78,30 @@ def piContractOK (i : PerformInviteIn) : Bool :=
 def sendJoinPseudoGuards (i : SendJoinPseudoIn) : Bool :=
   i.mapping == .valid && i.storeOK && sendJoinGuards (pseudoBase i)
 
+/-! ### PerformJoin, org.matrix.msc4014: what may be stored
+
+  A pair (sender ID → user ID) handed to `StoreSenderIDFromPublicID` becomes what this server's UserIDQuerier answers from
+  then on — in the auth checks that follow, and for every later event of that key.  The only thing that can vouch for such a
+  pair is an `mxid_mapping` for THAT key and THAT user which the user's server has validly signed (C06 demands the same of a
+  join before it verifies).  So: every pair stored must be the (user_room_key, user_id) of a mapping carried by a membership
+  event of the response, validly signed, and the key must be the one it is stored under.  Whether the carrying event itself
+  verifies is immaterial to the truth of the pair. -/
+
+def vouched (members : List PJMember) (senderID userID : Bytes) : Prop :=
+  ∃ m ∈ members, m.mapping = some (senderID, userID) ∧ m.mappingSigned = true
+
+instance (members : List PJMember) (k u : Bytes) : Decidable (vouched members k u) := by
+  unfold vouched; exact inferInstance
+
+/-- every store step of a trace is vouched for -/
+def storesVouched (members : List PJMember) (tr : List PJStep) : Bool :=
+  tr.all (fun st => match st with
+    | .store k u => decide (vouched members k u)
+    | .check => true)
+
+/-- "PerformJoin returns a join only if the remote's state passes the federation-response checks and contains a create
+    event of a known room version" -/
+def performJoinPseudoGuards (i : PerformJoinPseudoIn) : Bool :=
+  i.makeJoinOK && i.senderIDOK && i.buildOK && i.sendJoinOK && checkCreate i.knownVersion i.create && i.checkOK
+
 end V.Handshake.Spec
